@@ -30,6 +30,10 @@ def arrays_for(case, dtype=np.float64):
         elif p == "target01":
             n = int(np.prod(s, dtype=int))
             out.append(np.array([(k * 2 + 1) % 3 != 0 for k in range(n)], dtype=dtype).reshape(s))
+        elif p.startswith("target01:"):
+            # hard 0/1 targets held in the dtype they were loaded in (a uint8 mask, bool, integer class ids), not converted by the caller
+            n = int(np.prod(s, dtype=int))
+            out.append(np.array([(k * 2 + 1) % 3 != 0 for k in range(n)], dtype=np.dtype(p.split(":")[1])).reshape(s))
         elif p.startswith("scales:"):
             # generic values; every slice along dim d sits on its own scale (offset 0 or 900): per-slice results are unchanged
             # by a per-slice shift, but anything computed across slices (a global maximum) is not
@@ -358,6 +362,12 @@ def cases(tier, what="forward"):
         add("mse", [s, s]); add("bce", [s, s], pats=["prob", "target01"]); add("bce_logits", [s, s], pats=["logits", "target01"])
         for tg in ("target:0.0", "target:1.0", "target:0.3"):
             add("bce", [s, s], pats=["prob", tg]); add("bce_logits", [s, s], pats=["logits", tg])
+        if not fw and len(s) <= 2:
+            # gradient lattice only: the library accepts such targets (torch asks for a float tensor), and whatever value the
+            # forward computes from them, the backward must be its derivative
+            for k, tdt in enumerate(("uint8", "bool", "int64", "int8")):
+                add("bce", [s, s], {"reduction": reds[k]}, pats=["prob", "target01:" + tdt], form=("fn", "layer")[k % 2])
+                add("bce_logits", [s, s], {"reduction": reds[(k + 1) % 4]}, pats=["logits", "target01:" + tdt], form=("layer", "fn")[k % 2])
         for r in reds:
             add("mse", [s, s], {"reduction": r}, form="layer")
             add("bce", [s, s], {"reduction": r}, pats=["prob", "target01"], form="layer")
